@@ -23,10 +23,13 @@ Inductive op :=
 | OSweep                                    (* the shutdownIfIdle sweep of a runProbes round *)
 | OAtQuota                                  (* Pool.AtQuota *)
 | ORestart                                  (* a new Pool on the same cloud *)
-| OStuck (what : N).                        (* STUCK: an effect the previous operation must have (the model has it)
+| OStuck (what : N)                         (* STUCK: an effect the previous operation must have (the model has it)
                                                did not arrive within the watchdog deadline; the scenario ends here.
                                                1 create 2 start command 3 landing 4 kill delivered 5 give-up
                                                6 probe 7 destroy call 8 other *)
+| OSyncBegin (listed : list (N * N * ibeh))  (* getInstancesAndSync up to the point where the cloud has the list request:
+                                               the threshold is taken, the answer is the listing as of now *)
+| OSyncEnd.                                  (* ... the answer arrives and Pool.sync(threshold, answer) runs *)
 
 (* observable projection: return value; Running() as (uuid, exited?); Unallocated(); CountWorkers() for
    unknown/booting/idle/running/shutdown; Instances() as (id, state, idle behavior, last uuid, Destroy calls);
@@ -41,10 +44,17 @@ Record obs := mkobs {
   ob_live : list (N * N)
 }.
 
-Record mstate := mkms { ms_pool : wpool; ms_pending : list (probe0 * presp) }.
+Record mstate := mkms { ms_pool : wpool; ms_pending : list (probe0 * presp);
+                        ms_sync : option (Z * list (N * N * ibeh)) (* a list request in flight: threshold, answer *) }.
 
 Definition st_code (s : wstate) : N := match s with WUnknown => 0 | WBooting => 1 | WIdle => 2 | WRunning => 3 | WShutdown => 4 end%N.
 Definition ib_code (b : ibeh) : N := match b with IRun => 0 | IHold => 1 | IDrain => 2 end%N.
+
+(* Pool.sync(threshold, listed) with the threshold given: pool_sync of model/C14_pool.v is the case where the
+   threshold is taken immediately before (proofs/C14_wp.v: pool_sync_is_sync_at) *)
+Definition pool_sync_at (c : cfg) (threshold : Z) (listed : list (N * N * ibeh)) (p : wpool) : wpool :=
+  let (ws, clock) := sync_listed c listed (p_workers p) (p_clock p) in
+  mkp (filter (fun w => threshold <? w_updated w) ws) (p_exited p) clock (p_quota p) true.
 
 Definition bret (b : bool) : N := if b then 1%N else 0%N.
 
@@ -53,38 +63,44 @@ Definition apply_op (c : cfg) (o : op) (m : mstate) : N * mstate :=
   (* time passes between operations *)
   let p := snd (tick p) in
   match o with
-  | OSync l => (0%N, mkms (pool_sync c l p) (ms_pending m))
-  | OCreate it id oc => let (b, p') := pool_create it id oc p in (bret b, mkms p' (ms_pending m))
+  | OSync l => (0%N, mkms (pool_sync c l p) (ms_pending m) (ms_sync m))
+  | OCreate it id oc => let (b, p') := pool_create it id oc p in (bret b, mkms p' (ms_pending m) (ms_sync m))
   | OProbe id r =>
       match probe_begin id p with
-      | (None, p') => (0%N, mkms p' (ms_pending m))
-      | (Some pb, p') => (0%N, mkms (probe_end c pb r p') (ms_pending m))
+      | (None, p') => (0%N, mkms p' (ms_pending m) (ms_sync m))
+      | (Some pb, p') => (0%N, mkms (probe_end c pb r p') (ms_pending m) (ms_sync m))
       end
   | OProbeBegin id r =>
       match probe_begin id p with
-      | (None, p') => (0%N, mkms p' (ms_pending m))
+      | (None, p') => (0%N, mkms p' (ms_pending m) (ms_sync m))
       | (Some pb, p') =>
-          if probe_lists pb r then (0%N, mkms p' ((pb, r) :: ms_pending m))
-          else (0%N, mkms (probe_end c pb r p') (ms_pending m))
+          if probe_lists pb r then (0%N, mkms p' ((pb, r) :: ms_pending m) (ms_sync m))
+          else (0%N, mkms (probe_end c pb r p') (ms_pending m) (ms_sync m))
       end
   | OProbeEnd id =>
       match filter (fun x => N.eqb (pb_id (fst x)) id) (ms_pending m) with
-      | (pb, r) :: _ => (0%N, mkms (probe_end c pb r p) (filter (fun x => negb (N.eqb (pb_id (fst x)) id)) (ms_pending m)))
-      | [] => (0%N, mkms p (ms_pending m))
+      | (pb, r) :: _ => (0%N, mkms (probe_end c pb r p) (filter (fun x => negb (N.eqb (pb_id (fst x)) id)) (ms_pending m)) (ms_sync m))
+      | [] => (0%N, mkms p (ms_pending m) (ms_sync m))
       end
   | OStart it u => let (r, p') := pool_start it u p in
-                   (match r with Some id => (id + 1)%N | None => 0%N end, mkms p' (ms_pending m))
-  | OLands id u => (0%N, mkms (start_lands id u p) (ms_pending m))
-  | OKill u => let (b, p') := pool_kill u p in (bret b, mkms p' (ms_pending m))
-  | OKillDelivered id u => (0%N, mkms (kill_delivered id u p) (ms_pending m))
-  | OGiveUp id u => (0%N, mkms (give_up c id u p) (ms_pending m))
-  | OForget u => (0%N, mkms (pool_forget u p) (ms_pending m))
-  | OSetIB id b => (0%N, mkms (pool_set_ib c id b p) (ms_pending m))
-  | OShutdown it ch => let (b, p') := pool_shutdown it ch p in (bret b, mkms p' (ms_pending m))
-  | OSweep => (0%N, mkms (pool_sweep c p) (ms_pending m))
-  | OAtQuota => (bret (p_quota p), mkms p (ms_pending m))
-  | ORestart => (0%N, mkms (empty_pool (p_clock p)) [])
-  | OStuck _ => (0%N, mkms p (ms_pending m))
+                   (match r with Some id => (id + 1)%N | None => 0%N end, mkms p' (ms_pending m) (ms_sync m))
+  | OLands id u => (0%N, mkms (start_lands id u p) (ms_pending m) (ms_sync m))
+  | OKill u => let (b, p') := pool_kill u p in (bret b, mkms p' (ms_pending m) (ms_sync m))
+  | OKillDelivered id u => (0%N, mkms (kill_delivered id u p) (ms_pending m) (ms_sync m))
+  | OGiveUp id u => (0%N, mkms (give_up c id u p) (ms_pending m) (ms_sync m))
+  | OForget u => (0%N, mkms (pool_forget u p) (ms_pending m) (ms_sync m))
+  | OSetIB id b => (0%N, mkms (pool_set_ib c id b p) (ms_pending m) (ms_sync m))
+  | OShutdown it ch => let (b, p') := pool_shutdown it ch p in (bret b, mkms p' (ms_pending m) (ms_sync m))
+  | OSweep => (0%N, mkms (pool_sweep c p) (ms_pending m) (ms_sync m))
+  | OAtQuota => (bret (p_quota p), mkms p (ms_pending m) (ms_sync m))
+  | ORestart => (0%N, mkms (empty_pool (p_clock p)) [] None)
+  | OStuck _ => (0%N, mkms p (ms_pending m) (ms_sync m))
+  | OSyncBegin l => let (threshold, p1) := tick p in (0%N, mkms p1 (ms_pending m) (Some (threshold, l)))
+  | OSyncEnd =>
+      match ms_sync m with
+      | Some (threshold, l) => (0%N, mkms (pool_sync_at c threshold l p) (ms_pending m) None)
+      | None => (0%N, mkms p (ms_pending m) None)
+      end
   end.
 
 (* ---- canonical projection of the model state ---- *)
@@ -134,7 +150,7 @@ Fixpoint run_steps (c : cfg) (steps : list (op * obs)) (m : mstate) : bool :=
       choice_ok o (ms_pool m) && obs_eqb (project ret (ms_pool m')) ob && run_steps c r m'
   end.
 
-Definition model_b (c : case) : bool := run_steps (wc_cfg c) (wc_steps c) (mkms (empty_pool 0) []).
+Definition model_b (c : case) : bool := run_steps (wc_cfg c) (wc_steps c) (mkms (empty_pool 0) [] None).
 
 (* ---------------- specification on the observed sequence (worker-level clauses of C14 / C15) ---------------- *)
 Fixpoint find_inst (id : N) (l : list (N * N * N * N * N)) : option (N * N) :=
@@ -163,7 +179,11 @@ Definition live_on (disc : list N) (ob : obs) : list (N * N) := filter (fun vu =
 Fixpoint nodup_uuid (l : list (N * N)) : bool :=
   match l with [] => true | x :: r => negb (existsb (fun y => N.eqb (snd x) (snd y)) r) && nodup_uuid r end.
 
-Definition step_ok (shut disc : list N) (prev : obs) (o : op) (ob : obs) : bool :=
+(* the instances shown when the list request that is in flight was issued *)
+Definition next_sb (sb : option (list N)) (o : op) (ob : obs) : option (list N) :=
+  match o with OSyncBegin _ => Some (inst_ids ob) | OSyncEnd | ORestart => None | _ => sb end.
+
+Definition step_ok (shut disc : list N) (sb : option (list N)) (prev : obs) (o : op) (ob : obs) : bool :=
   match o with
   | OStart it u =>
       N.eqb (ob_ret ob) 0 ||
@@ -179,18 +199,25 @@ Definition step_ok (shut disc : list N) (prev : obs) (o : op) (ob : obs) : bool 
   | OCreate _ _ oc =>
       (* C15: a Create that failed in the cloud leaves no phantom capacity behind *)
       N.eqb oc 0 || list_eqb pairNZ_eqb (ob_unalloc ob) (ob_unalloc prev)
+  | OSyncEnd =>
+      (* C14 (bookkeeping covers processes): the answer to a list request is a snapshot from when the request was
+         issued; an instance that has appeared in the pool since then is not dropped by that sync *)
+      match sb with
+      | Some b => forallb (fun i => memN i b || memN i (inst_ids ob)) (inst_ids prev)
+      | None => true
+      end
   | _ => true
   end &&
   (* C14: at most one live crunch-run process per container on the instances the pool has discovered *)
   nodup_uuid (live_on (next_disc disc o ob) ob).
 
-Fixpoint spec_steps (shut disc : list N) (prev : obs) (steps : list (op * obs)) : bool :=
+Fixpoint spec_steps (shut disc : list N) (sb : option (list N)) (prev : obs) (steps : list (op * obs)) : bool :=
   match steps with
   | [] => true
-  | (o, ob) :: r => step_ok shut disc prev o ob && spec_steps (next_shut shut o ob) (next_disc disc o ob) ob r
+  | (o, ob) :: r => step_ok shut disc sb prev o ob && spec_steps (next_shut shut o ob) (next_disc disc o ob) (next_sb sb o ob) ob r
   end.
 Definition empty_obs : obs := mkobs 0 [] [] [0; 0; 0; 0; 0]%nat [] [].
-Definition spec_b (c : case) : bool := spec_steps [] [] empty_obs (wc_steps c).
+Definition spec_b (c : case) : bool := spec_steps [] [] None empty_obs (wc_steps c).
 
 Definition check_case (c : case) : N :=
   ((if model_b c then 0 else 1) + (if spec_b c then 0 else 2))%N.
@@ -209,7 +236,7 @@ Definition Ob (ret : N) (run : list (N * bool)) (un : list (N * Z)) (cnt : list 
 
 (* ---------------- the same specification as propositions (statements of proofs/C14_wp.v) ---------------- *)
 (* one step, as a proposition *)
-Definition step_P (shut disc : list N) (prev : obs) (o : op) (ob : obs) : Prop :=
+Definition step_P (shut disc : list N) (sb : option (list N)) (prev : obs) (o : op) (ob : obs) : Prop :=
   match o with
   | OStart it u =>
       ob_ret ob = 0%N \/
@@ -217,13 +244,14 @@ Definition step_P (shut disc : list N) (prev : obs) (o : op) (ob : obs) : Prop :
        ~ In (ob_ret ob - 1)%N shut /\                                      (* never shown shut down by this pool *)
        ~ In u (map snd (live_on disc prev)))                               (* no live process of u on a discovered instance *)
   | OCreate _ _ oc => oc = 0%N \/ ob_unalloc ob = ob_unalloc prev
+  | OSyncEnd => forall b, sb = Some b -> forall i, In i (inst_ids prev) -> ~ In i b -> In i (inst_ids ob)
   | _ => True
   end /\ NoDup (map snd (live_on (next_disc disc o ob) ob)).
 
-Fixpoint spec_P (shut disc : list N) (prev : obs) (steps : list (op * obs)) : Prop :=
+Fixpoint spec_P (shut disc : list N) (sb : option (list N)) (prev : obs) (steps : list (op * obs)) : Prop :=
   match steps with
   | [] => True
-  | (o, ob) :: r => step_P shut disc prev o ob /\ spec_P (next_shut shut o ob) (next_disc disc o ob) ob r
+  | (o, ob) :: r => step_P shut disc sb prev o ob /\ spec_P (next_shut shut o ob) (next_disc disc o ob) (next_sb sb o ob) ob r
   end.
 
 
